@@ -791,6 +791,8 @@ pub fn evaluate(env: &Rc<RefCell<Env>>, expr: &LocExpr) -> NRes<Obj> {
         Expr::And(lhs, rhs) => {
             let lr = evaluate(env, lhs)?;
             if lr.truthy() {
+                // drop asap, as above
+                std::mem::drop(lr);
                 evaluate(env, rhs)
             } else {
                 Ok(lr)
@@ -1141,7 +1143,11 @@ pub fn evaluate(env: &Rc<RefCell<Env>>, expr: &LocExpr) -> NRes<Obj> {
                 expr.start,
                 expr.end,
             )?;
-            if cr.truthy() {
+            // only the truthiness is needed: drop the value asap so that a collection used as the condition is not
+            // kept alive (and so copied on write) while a branch mutates it
+            let truthy = cr.truthy();
+            std::mem::drop(cr);
+            if truthy {
                 add_trace(
                     evaluate(env, if_body),
                     || "if-branch".to_string(),
